@@ -16,7 +16,7 @@ C06  Optimisers return feasible solutions with truthful objective values  (struc
 """
 import ast
 
-from sa.astutil import oriented, dump, where, kwargs_of, walk_no_nested, is_const, field_of
+from sa.astutil import canon_text, oriented, dump, where, kwargs_of, walk_no_nested, is_const, field_of
 from sa.model import AnalysisError, body_nodoc, ClassInfo
 from sa.order import enumerate_paths, Event, names
 from rules.c17 import _swap, _defs
@@ -718,8 +718,8 @@ def check_operators(prog, rep):
         rep.violate("R5-problem", f.qualname, "parents are edited in place (no copy of X)", where(f), "Xp = np.copy(X)", "absent")
         return
     Xp = Xp[0]
-    m1 = "~numpy.isin(%s[0, %s, :], %s[1, %s, :])" % (Xp, i, Xp, i)
-    m2 = "~numpy.isin(%s[1, %s, :], %s[0, %s, :])" % (Xp, i, Xp, i)
+    m1 = canon_text("~numpy.isin(%s[0, %s, :], %s[1, %s, :])" % (Xp, i, Xp, i))
+    m2 = canon_text("~numpy.isin(%s[1, %s, :], %s[0, %s, :])" % (Xp, i, Xp, i))
 
     def canon_mask(v):
         """text of a complement-of-membership mask with local row views substituted and `np.isin(a, b, invert=True)` read as `~np.isin(a, b)`"""
@@ -786,8 +786,8 @@ def check_operators(prog, rep):
         loop = [s for s in body_nodoc(f.node) if isinstance(s, ast.For)]
         i = dump(loop[0].target) if loop else "i"
         # roles by definition, not by name: mab = members outside the set space, mba = set-space elements not in the individual
-        mab = [k for k, v in txt.items() if v == "~numpy.isin(%s[%s, :], self.setspace)" % (Xm, i)]
-        mba = [k for k, v in txt.items() if v == "~numpy.isin(self.setspace, %s[%s, :])" % (Xm, i)]
+        mab = [k for k, v in txt.items() if v == canon_text("~numpy.isin(%s[%s, :], self.setspace)" % (Xm, i))]
+        mba = [k for k, v in txt.items() if v == canon_text("~numpy.isin(self.setspace, %s[%s, :])" % (Xm, i))]
         okm = False
         if len(mab) == 1 and len(mba) == 1:
             bpn = [k for k, v in txt.items() if v == "self.setspace[%s]" % mba[0]]
